@@ -97,6 +97,15 @@ func (r *ResponseFilterWriter) WriteHeader(code int) {
 	r.statusCodeWritten = true
 }
 
+// Flush writes the header first if that has not been done yet, so that
+// the filters decide about compression before the headers are sent.
+func (r *ResponseFilterWriter) Flush() {
+	if !r.statusCodeWritten {
+		r.WriteHeader(http.StatusOK)
+	}
+	r.ResponseWriterWrapper.Flush()
+}
+
 // Write wraps underlying Write method and compresses if filters
 // are satisfied
 func (r *ResponseFilterWriter) Write(b []byte) (int, error) {
